@@ -134,6 +134,76 @@ theorem raiseImplicit_surface_eq (o : Obj K) (tol : K) (hw : C06.WF o 2) (au av 
   exact Interp.tensor_ext3 _ T sR hTs dR dT (fun k0 hk0 k1 hk1 i hi => by
     rw [eR k0 hk0 k1 hk1 i hi]; exact hTe k0 hk0 k1 hk1 i hi)
 
+/-- The same with the projection property of each direction given directly (`Proj`), for directions
+    where the row identity is only known at the Greville points (periodic bases). -/
+theorem raiseImplicit_surface_eq_proj (o : Obj K) (tol : K) (hw : C06.WF o 2) (au av : ℕ) (bu' bv' : Basis K)
+    (hru : (o.basis 0).raiseOrder tol au = .ok bu') (hrv : (o.basis 1).raiseOrder tol av = .ok bv')
+    (pu pv : Array K) (hgu : bu'.greville = .ok pu) (hgv : bv'.greville = .ok pv) (Niu Niv : Mat K)
+    (Hu : Mat.invChecked (Obj.basisMat bu' tol pu.toList 0 true) = .ok Niu)
+    (Hv : Mat.invChecked (Obj.basisMat bv' tol pv.toList 0 true) = .ok Niv)
+    (Eu Ev : ℕ → ℕ → K)
+    (pju : Proj Niu (Obj.basisMat (o.basis 0) tol pu.toList 0 true) pu.size (o.basis 0).numFunctions pu.size Eu)
+    (pjv : Proj Niv (Obj.basisMat (o.basis 1) tol pv.toList 0 true) pv.size (o.basis 1).numFunctions pv.size Ev) :
+    o.raiseOrderImplicit tol [au, av] = .ok (renet (renet o 0 bu' Eu) 1 bv' Ev) := by
+  have hb := bases_of_wf2 hw
+  have hs := shape_of_wf2 hw
+  obtain ⟨T, hT, hTs, hTe⟩ := reinterpolate_pardim2_proj o tol (o.basis 0) (o.basis 1) bu' bv' pu pv _ _ _ Niu Niv hb hs
+    hgu hgv Hu Hv Eu Ev pju pjv
+  have hPu := greville_size bu' pu hgu
+  have hPv := greville_size bv' pv hgv
+  have himp : o.raiseOrderImplicit tol [au, av]
+      = .ok { o with bases := [bu', bv'].toArray, cps := T } := by
+    unfold Obj.raiseOrderImplicit
+    rw [hb]
+    simp only [Obj.raiseBases, hru, hrv]
+    rw [hT]
+  rw [himp]
+  congr 1
+  -- the two objects coincide
+  have hbases : (o.bases.set! 0 bu').set! 1 bv' = [bu', bv'].toArray := by
+    rw [hb]; simp [Array.set!]
+  have hren : renet (renet o 0 bu' Eu) 1 bv' Ev
+      = { bases := [bu', bv'].toArray,
+          cps := Tensor.applyAxis (matOfE Ev (o.basis 1).numFunctions bv'.numFunctions)
+            (Tensor.applyAxis (matOfE Eu (o.basis 0).numFunctions bu'.numFunctions) o.cps 0) 1,
+          rational := o.rational } := by
+    have hb1 := C04.basis_set_ne o 0 1 (by decide) bu'
+      (Tensor.applyAxis (matOfE Eu (o.basis 0).numFunctions bu'.numFunctions) o.cps 0)
+    unfold renet
+    simp only [hb1, hbases]
+  rw [hren]
+  congr 1
+  obtain ⟨sR, dR, eR⟩ := renet2_entries o.cps hs Eu Ev bu'.numFunctions bv'.numFunctions
+  rw [hPu, hPv] at hTs hTe
+  have dT : T.data.size = bu'.numFunctions * bv'.numFunctions * o.ncomp := by
+    have hTd : T = Tensor.tensordotFront Niu (Tensor.tensordotFront Niv
+        (Tensor.tensordotFront (Obj.basisMat (o.basis 0) tol pu.toList 0 true)
+          (Tensor.tensordotFront (Obj.basisMat (o.basis 1) tol pv.toList 0 true) o.cps 2) 2) 2) 2 := by
+      have hpd : o.pardim = 2 := by simp [Obj.pardim, hs]
+      have : o.reinterpolate tol [bu', bv'] = .ok _ := hT
+      unfold Obj.reinterpolate at this
+      simp only [Obj.grevilles, hgu, hgv, hb, hpd] at this
+      simp only [List.zip_cons_cons, List.zip_nil_right, List.map_cons, List.map_nil,
+        List.reverse_cons, List.reverse_nil, List.nil_append, List.cons_append, List.foldl_cons, List.foldl_nil,
+        Obj.solveChain, Hv, Hu] at this
+      injection this with this
+      exact this.symm
+    obtain ⟨hNiu, _⟩ := Mat.invChecked_spec _ Niu Hu
+    obtain ⟨hNiv, _⟩ := Mat.invChecked_spec _ Niv Hv
+    have r1 : (Obj.basisMat bu' tol pu.toList 0 true).nrows = pu.size := by simp [Mat.nrows, basisMat_size]
+    have r2 : (Obj.basisMat bv' tol pv.toList 0 true).nrows = pv.size := by simp [Mat.nrows, basisMat_size]
+    rw [r1] at hNiu
+    rw [r2] at hNiv
+    set R1 := Tensor.tensordotFront (Obj.basisMat (o.basis 1) tol pv.toList 0 true) o.cps 2 with hR1
+    have s1 := tdf2_shape (Obj.basisMat (o.basis 1) tol pv.toList 0 true) o.cps hs
+    set R2 := Tensor.tensordotFront (Obj.basisMat (o.basis 0) tol pu.toList 0 true) R1 2 with hR2
+    have s2 := tdf2_shape (Obj.basisMat (o.basis 0) tol pu.toList 0 true) R1 s1
+    set R3 := Tensor.tensordotFront Niv R2 2 with hR3
+    have s3 := tdf2_shape Niv R2 s2
+    rw [hTd, tdf2_data_size Niu R3 s3, hNiu, hNiv, hPu, hPv]
+  exact Interp.tensor_ext3 _ T sR hTs dR dT (fun k0 hk0 k1 hk1 i hi => by
+    rw [eR k0 hk0 k1 hk1 i hi]; exact hTe k0 hk0 k1 hk1 i hi)
+
 /-! ## One direction of a multi-directional `raise_order` -/
 
 /-- Everything the surface / volume theorems need to know about one parametric direction:
